@@ -46,12 +46,14 @@ def box_env():
     return GenericEnv(Box(-jnp.ones((2,)), jnp.ones((2,))))
 
 
+# the per-step obligations hold for EVERY num_envs / num_steps: both are dimension variables (the step function must not depend on them)
+_NE, _TS = extract.symbolic_dims("NE, TS")
 CONFIGS = {
-    "PPO/box": (lambda: PPO(num_envs=1, num_steps=4, num_batches=1), box_env, lambda e: e),
-    "PPO/box/TimeLimit": (lambda: PPO(num_envs=1, num_steps=4, num_batches=1), box_env, lambda e: W.TimeLimit(e, 7)),
-    "PPO/discrete-masked": (lambda: PPO(num_envs=1, num_steps=4, num_batches=1), lambda: GenericEnv(Discrete(3), masked=True), lambda e: e),
-    "A2C/box": (lambda: A2C(num_envs=1, num_steps=4), box_env, lambda e: e),
-    "A2C/discrete/TimeLimit": (lambda: A2C(num_envs=1, num_steps=4), lambda: GenericEnv(Discrete(3)), lambda e: W.TimeLimit(e, 5)),
+    "PPO/box": (lambda: PPO(num_envs=_NE, num_steps=_TS, num_batches=1), box_env, lambda e: e),
+    "PPO/box/TimeLimit": (lambda: PPO(num_envs=_NE, num_steps=_TS, num_batches=1), box_env, lambda e: W.TimeLimit(e, 7)),
+    "PPO/discrete-masked": (lambda: PPO(num_envs=_NE, num_steps=_TS, num_batches=1), lambda: GenericEnv(Discrete(3), masked=True), lambda e: e),
+    "A2C/box": (lambda: A2C(num_envs=_NE, num_steps=_TS), box_env, lambda e: e),
+    "A2C/discrete/TimeLimit": (lambda: A2C(num_envs=_NE, num_steps=_TS), lambda: GenericEnv(Discrete(3)), lambda e: W.TimeLimit(e, 5)),
 }
 
 
